@@ -270,8 +270,22 @@ def gen_entries(rng, base, types):
         elif kind == 'sch' and rng.random() < 0.5:
             val = [[rng.choice(['0.1', '0.2', '0.25', '0.9', '1', '0', '0.75']) for _ in range(24)]
                    for _ in range(3)]
+        elif kind == 'scalar' and lk == 'zone' and rng.random() < 0.8:
+            # every one of the 18 zone names; the two that look like numbers ('7', '8') as often as the rest
+            val = rng.choice(['7', '8']) if rng.random() < 0.4 else rng.choice(ZONES18)
         ents.append((kind, key, val))
     return ents
+
+
+ZONES18 = ('1A', '1B', '2A', '2B', '3A', '3B-CA', '3B', '3C', '4A', '4B', '4C', '5A', '5B', '5C', '6A', '6B',
+           '7', '8')
+
+
+def zone_written(ents):
+    for kind, key, val in ents:
+        if kind == 'scalar' and key.lower() == 'zone':
+            return val
+    return None
 
 
 HANGS = {'n': 0, 'limit': 3}
@@ -322,6 +336,8 @@ def tie_reader(chk, uwg):
     n_lay = 12 if chk.tier == 'quick' else 100
     read_cases, file_cases, info = [], [], []
     bad = 0
+    bad_zone = 0
+    zones_seen = {}
     serial = [0]
 
     def run_text(lines, eol, final, tag, expect=None, raw=None):
@@ -362,6 +378,22 @@ def tie_reader(chk, uwg):
                                   'canonical')
             r1, f1, t1 = run_text(render(rng, var, dict(gaps=[0], deco=False)), '\n', True,
                                   'layout:shipped-case')
+            zw = zone_written(var)
+            if zw is not None and r0.startswith('ok'):
+                zones_seen[zw.upper()] = zones_seen.get(zw.upper(), 0) + 1
+                want = 'zone:s' + enc(zw)
+                held = [x for x in r0.replace('{', ',').replace('}', ',').split(',') if x.startswith('zone:')]
+                held_f = [x for x in f0.replace('{', ',').replace('}', ',').split(',') if x.startswith('zone:')]
+                # (the reader folds every cell to lower case; the setter stores the upper-case name)
+                if [x.lower() for x in held] != [want.lower()] or \
+                        (f0.startswith('ok') and held_f != ['zone:s' + enc(zw.upper())]):
+                    bad_zone += 1
+                    if bad_zone <= 2:
+                        chk.violation('impl-violation', 'the zone read from a parameter file is the zone written',
+                                      case={'file': t0, 'zone_written': zw},
+                                      observed={'parsed': held, 'model': held_f},
+                                      expected='zone %r (one of the 18 zone names; the names 7 and 8 are names, '
+                                               'not indices)' % zw)
             if 'skipped' not in (r0, r1) and (r1 != r0 or f1 != f0):
                 bad += 1
                 if bad <= 3:
@@ -516,8 +548,11 @@ def tie_reader(chk, uwg):
                         'decimal, or ValueError)')
     chk.direct('layout-invariance(_read_input)', n_valid, n_valid,
                'every generated layout of an entry list parses to the same map and the same parameter '
-               'record as its canonical layout (exact); every malformed file ends within the watchdog',
-               mismatches=bad + hangs)
+               'record as its canonical layout (exact); every malformed file ends within the watchdog; '
+               'entry lists carry every one of the 18 zone names (7 and 8, which look like numbers, in 40%% '
+               'of the varied lists) and the zone parsed / held by the model must be the zone written '
+               '(zones exercised: %s)' % ' '.join('%s:%d' % kv for kv in sorted(zones_seen.items())),
+               mismatches=bad + hangs + bad_zone)
     return bases
 
 
@@ -1141,8 +1176,20 @@ def tie_routes(chk, uwg, kinds, xtab):
     intfloat_notes = []
     typediff = {}
     rectype_diff = {}
+    # zones of the route sets: the sets that include the file and CLI-param routes start with the two zone names
+    # that look like numbers, then run through the other 16; custom sets draw from all 18
+    file_zones = ['7', '8'] + [z for z in ZONES18 if z not in ('7', '8')]
+    if chk.tier == 'quick':
+        file_zones = [rng.choice(['7', '8'])]
+    share_patterns = [('wall',), ('wall', 'roof', 'mass'), ('building',), ('mass', 'roof'),
+                      ('building', 'wall', 'roof', 'mass')]
+    shared_sets = 0
     for si in range(nsets):
         custom = (si % 2 == 1)
+        # custom sets: every other one (quick tier: the only one) is a vector of two customs written around
+        # common objects - one Element / Building instance used in both BEMDefs, as a caller who defines a
+        # construction once writes it. Only the keyword route can carry that; dict / JSON / CLI rebuild objects.
+        share = rng.choice(share_patterns) if custom and (si % 4 == 1) else None
         # moderate perturbation of the Singapore defaults, ints and floats mixed on purpose
         vals = dict(month=rng.randint(1, 12), day=rng.randint(1, 28), nday=1,
                     dtsim=300, dtweather=rng.choice([3600, 3600.0]),
@@ -1158,7 +1205,8 @@ def tie_routes(chk, uwg, kinds, xtab):
                     h_mix=rng.choice([1, 1.0, 0.5, 0]), blddensity=dec(rng, 0.3, 0.6, 2),
                     vertohor=dec(rng, 0.5, 1.2, 2), charlength=rng.choice([1000, 1000.0, 500]),
                     albroad=dec(rng, 0.05, 0.3, 2), droad=rng.choice([0.5, 0.25, 1]),
-                    sensanth=rng.choice([20, 20.0, 10.5]), zone=rng.choice(['1A', '2A', '3A', '4A', '5A']),
+                    sensanth=rng.choice([20, 20.0, 10.5]),
+                    zone=rng.choice(ZONES18) if custom else file_zones[(si // 2) % len(file_zones)],
                     grasscover=dec(rng, 0.0, 0.2, 2), treecover=dec(rng, 0.0, 0.2, 2),
                     vegstart=rng.choice([1, 4]), vegend=rng.choice([10, 12]),
                     albveg=dec(rng, 0.15, 0.3, 2), rurvegcover=dec(rng, 0.5, 0.95, 2),
@@ -1171,20 +1219,33 @@ def tie_routes(chk, uwg, kinds, xtab):
                 rng.choice([3.05, 3.5, 4]) if n == 'flr_h' else rng.choice([0.25, 0.5, 0, 1, 0.35]))
         customs, names = [], []
         if custom:
-            for ci in range(rng.choice([1, 2])):
+            for ci in range(2 if share else rng.choice([1, 2])):
                 ti, zi, ei = rng.randrange(16), 0, rng.randrange(3)
+                if share and ci == 1 and rng.random() < 0.5:
+                    ti = (ti + 1 + rng.randrange(15)) % 16     # the second custom may replace a DOE type ...
                 b = copy.deepcopy(refBEM[ti][ei][zi])
                 s = copy.deepcopy(refSch[ti][ei][zi])
                 b.bldtype = s.bldtype = 'custom%d' % ci if rng.random() < 0.6 else b.bldtype
+                if share and (b.bldtype, b.builtera) in names:
+                    b.bldtype = s.bldtype = 'custom%d' % ci    # ... but both must stand in the stock
                 customs.append((attrs_bem(b), attrs_sch(s)))
                 names.append((b.bldtype, b.builtera))
+            if share:
+                shared_sets += 1
+                for role in share:                              # equal values in both (it is one object)
+                    customs[1][0][role] = copy.deepcopy(customs[0][0][role])
         vals['bld'] = gen_bld(rng, types, names, tupled=False)
         vals['bld'] = [[t, e.lower(), f] for t, e, f in vals['bld']]
         origin = {'parameters': canon(vals)[:2500], 'customs': [n for n in names]}
+        if share:
+            origin['custom BEMDefs 0 and 1 given to from_param_args are built around the same objects'] = list(share)
 
         def fresh_objs():
             bv = [uwg.BEMDef.from_dict(copy.deepcopy(p[0])) for p in customs] or None
             sv = [uwg.SchDef.from_dict(copy.deepcopy(p[1])) for p in customs] or None
+            if share:
+                for role in share:
+                    setattr(bv[1], role, getattr(bv[0], role))
             return bv, sv
 
         def r_kwargs(out, name):
@@ -1309,7 +1370,12 @@ def tie_routes(chk, uwg, kinds, xtab):
                'the same parameter values built through from_param_args (+ overrides as attributes), '
                'from_dict(to_dict), JSON text, a generated .uwg file and the CLI (`simulate model`, '
                '`simulate param`, click runner in process), 1-day Singapore simulation: written EPW files '
-               'byte-identical to the keyword route, hourly (canTemp, canHum, Tdp, canRHum, wind) equal',
+               'byte-identical to the keyword route, hourly (canTemp, canHum, Tdp, canRHum, wind) equal bit for '
+               'bit. Zones: file / CLI-param sets use the digit-looking names 7, 8 first (quick: one of them), '
+               'then the other 16; custom sets any of the 18. Custom sets: every other one gives from_param_args '
+               'two BEMDefs built around common objects (one wall / envelope / Building / mass+roof / everything '
+               'used in both) - %d such set(s) in this run - while the dict, JSON and CLI routes rebuild separate '
+               'objects from to_dict' % shared_sets,
                mismatches=bad, branches=branch)
     chk.measurements['route_sets'] = nsets
     chk.measurements['routes_differing_only_in_int_vs_float_representation'] = typediff
@@ -1318,6 +1384,84 @@ def tie_routes(chk, uwg, kinds, xtab):
     if intfloat_notes:
         chk.notes.append('FINDING: int-vs-float representation of equal parameter values changed the '
                          'written EPW (first case: %s)' % str(intfloat_notes[0])[:1500])
+
+
+def tie_zone_names(chk, uwg, xtab):
+    """The file route with every one of the 18 zone names (two of them, '7' and '8', look like numbers; the
+    other parameters of a .uwg file ARE numbers): same parameters as the keyword and dictionary routes, and -
+    after generate() - the same selected archetypes and the same initial state."""
+    import uwgutil as U
+    UWG = uwg.UWG
+    rng = chk.rng
+    work = chk.work()
+    plist, kwnames, optional = xtab['plist'], xtab['kw'], xtab['oset']
+    epw = os.path.join(core.REPO, 'resources', 'SGP_Singapore.486980_IWEC.epw')
+    with quiet():
+        m0 = UWG.from_param_file(os.path.join(core.REPO, 'resources', 'initialize_singapore.uwg'), epw_path=epw)
+    vals = {n: getattr(m0, n) for n in plist}
+    vals['nday'] = 1
+    deep_zones = set(ZONES18) if chk.tier != 'quick' else {'7', '8', rng.choice(ZONES18[:8]), rng.choice(ZONES18[8:16])}
+    bad = n = 0
+    proxy = {'1B': '1A', '5C': '5B'}
+    for z in ZONES18:
+        for spelled in ([z] if z.upper() == z.lower() else [z, z.lower()]):
+            v = dict(vals, zone=spelled)
+            case = {'zone': spelled, 'file': 'resources/initialize_singapore.uwg values, nday 1, this zone'}
+            p = os.path.join(work, 'zone_%s.uwg' % spelled)
+            with open(p, 'w', newline='') as f:
+                f.write(uwg_text(v, plist))
+            models = {}
+            try:
+                with quiet():
+                    models['uwg-file'] = UWG.from_param_file(p, epw, work, 'zf.epw')
+                    mk = UWG.from_param_args(epw_path=epw, new_epw_dir=work, new_epw_name='zk.epw',
+                                             **{k: copy.deepcopy(v[k]) for k in kwnames})
+                    for k in optional:
+                        setattr(mk, k, v[k])
+                    models['kwargs'] = mk
+                    models['dict'] = UWG.from_dict(json.loads(json.dumps(mk.to_dict())), epw_path=epw,
+                                                   new_epw_dir=work, new_epw_name='zd.epw')
+            except Exception as e:                                # noqa: BLE001
+                bad += 1
+                chk.violation('impl-violation', 'file route with every zone name', case=case,
+                              observed='%s: %s' % (type(e).__name__, str(e)[:200]),
+                              expected='all three routes accept the zone name')
+                continue
+            n += 1
+            ref = canon_num(models['kwargs'].to_dict())
+            for rname, m in models.items():
+                if m.zone != z or canon_num(m.to_dict()) != ref:
+                    bad += 1
+                    chk.violation('impl-violation', 'file route with every zone name', case=case,
+                                  observed={'route': rname, 'zone held': m.zone, 'first difference': str(first_diff(
+                                      json.loads(json.dumps(m.to_dict())),
+                                      json.loads(json.dumps(models['kwargs'].to_dict())), strict=False))},
+                                  expected='zone %r and the parameter values of the keyword route' % z)
+            if spelled == z and z in deep_zones:
+                states = {}
+                for rname in ('kwargs', 'uwg-file'):
+                    m = models[rname]
+                    with quiet():
+                        m.generate()
+                    states[rname] = (U.model_state(m), [(b.bldtype, b.builtera, b.zonetype) for b in m.BEM])
+                    if any(b.zonetype != proxy.get(z, z) for b in m.BEM):
+                        bad += 1
+                        chk.violation('impl-violation', 'archetypes selected for the zone of the file', case=case,
+                                      observed={'route': rname, 'BEM': states[rname][1]},
+                                      expected='archetypes of zone %s' % proxy.get(z, z))
+                n += 1
+                if states['kwargs'] != states['uwg-file']:
+                    bad += 1
+                    chk.violation('impl-violation', 'file route generates the same model as the keyword route',
+                                  case=case, observed={'file route': states['uwg-file'][1]},
+                                  expected={'keyword route': states['kwargs'][1],
+                                            'and': 'identical digest of the generated state'})
+    chk.direct('file-route(every one of the 18 zone names)', n, n,
+               'the shipped Singapore parameter values written to a .uwg file with each of the 18 zone names '
+               '(upper and lower case) vs from_param_args and from_dict: zone held and every parameter equal; '
+               'after generate() (quick: zones 7, 8 and two others; thorough: all 18) the archetypes selected '
+               'carry the requested zone label and the digest of the generated state equals the keyword route',
+               mismatches=bad)
 
 
 # ----------------------------------------------------------------------------- entry point
@@ -1340,6 +1484,7 @@ def run(chk):
     if all(k[0] != 'unknown' for k in kinds.values()):
         tie_dict(chk, uwg, kinds, xtab)
         tie_routes(chk, uwg, kinds, xtab)
+        tie_zone_names(chk, uwg, xtab)
     else:
         chk.notes.append('generators for the dictionary/route ties need a fully recognised table; skipped')
     chk.assumptions += [
